@@ -70,14 +70,15 @@ import (
 
 type c09Stats struct {
 	RefsReqs         int
-	UploadReqs       int // POST /upload-pack/ requests (negotiation + table + packfile round trips)
-	UploadNegRounds  int // of which answered with ACKs
-	UploadTblRounds  int // of which answered with TableHaves
-	UploadPackfiles  int // of which answered with a packfile
-	ReceiveReqs      int // POST /receive-pack/ requests
-	ReceivePackfiles int // of which carried a packfile
-	Errors           int // requests answered with status >= 400
-	Faults           int // responses lost by the fault layer
+	UploadReqs       int  // POST /upload-pack/ requests (negotiation + table + packfile round trips)
+	UploadNegRounds  int  // of which answered with ACKs
+	UploadTblRounds  int  // of which answered with TableHaves
+	UploadPackfiles  int  // of which answered with a packfile
+	ReceiveReqs      int  // POST /receive-pack/ requests
+	ReceivePackfiles int  // of which carried a packfile
+	Errors           int  // requests answered with status >= 400
+	Faults           int  // responses lost or cut by the fault layer
+	Watchdog         bool // MaxRequests was exceeded
 }
 
 type c09UpSession struct {
@@ -111,9 +112,17 @@ type c09Server struct {
 	// an upload-pack / receive-pack POST, 3 = the answer of the packfile exchange that carries the J-th commit.
 	FaultPhase, FaultJ int
 	faultFired         bool
-	jsonAnswers        int
-	commitsSeen        int
-	lastPackCommits    int // commits in the packfile of the request being served, -1 = not a packfile exchange
+	// Persistent faults (EVERY packfile answer of upload-pack, on every attempt): 1 = the body is cut three bytes
+	// before its end, i.e. inside the body of the last object; 2 = the answer is lost (reset/abort) every time.
+	Persistent int
+	// MaxRequests > 0 is the watchdog: once more requests than that have been served every further request is
+	// answered 500 (not retryable) and Stats.Watchdog is set - a client that retries without bound is stopped
+	// and reported instead of hanging the harness.
+	MaxRequests     int
+	requests        int
+	jsonAnswers     int
+	commitsSeen     int
+	lastPackCommits int // commits in the packfile of the request being served, -1 = not a packfile exchange
 
 	up     map[string]*c09UpSession
 	rp     map[string]*c09RpSession
@@ -131,6 +140,17 @@ func (s *c09Server) ServeHTTP(out http.ResponseWriter, r *http.Request) {
 	rw := httptest.NewRecorder()
 	s.lastPackCommits = -1
 	phase := 0
+	s.requests++
+	if s.MaxRequests > 0 && s.requests > s.MaxRequests {
+		s.Stats.Watchdog = true
+		s.fail(rw, http.StatusInternalServerError, "reference server watchdog: too many requests")
+		for k, v := range rw.Header() {
+			out.Header()[k] = v
+		}
+		out.WriteHeader(rw.Code)
+		out.Write(rw.Body.Bytes())
+		return
+	}
 	switch {
 	case r.URL.Path == api.PathRefs && r.Method == http.MethodGet:
 		s.getRefs(rw, r)
@@ -158,11 +178,21 @@ func (s *c09Server) ServeHTTP(out http.ResponseWriter, r *http.Request) {
 		s.Stats.Faults++
 		panic(http.ErrAbortHandler)
 	}
+	body := rw.Body.Bytes()
+	if s.Persistent != 0 && r.URL.Path == api.PathUploadPack && rw.Header().Get("Content-Type") == api.CTPackfile {
+		s.Stats.Faults++
+		if s.Persistent == 2 {
+			panic(http.ErrAbortHandler)
+		}
+		if len(body) > 3 {
+			body = body[:len(body)-3]
+		}
+	}
 	for k, v := range rw.Header() {
 		out.Header()[k] = v
 	}
 	out.WriteHeader(rw.Code)
-	out.Write(rw.Body.Bytes())
+	out.Write(body)
 }
 
 func c09CountCommits(info *packfile.PackfileInfo) int {
